@@ -27,18 +27,15 @@ pub fn c12_int_counter_two_locals_two_ops() {
     let c = IntCounter::new("a", "h").unwrap();
     let l1 = c.local();
     let l2 = c.local();
-    let (s0, p1_0, p2_0) = (any_u64(), any_u64(), any_u64());
-    assume(s0 < (1 << 60) && p1_0 < (1 << 60) && p2_0 < (1 << 60));
+    let (s0, p1_0, p2_0) = (any_u64() >> 4, any_u64() >> 4, any_u64() >> 4);
     c.inc_by(s0);
     l1.inc_by(p1_0);
     l2.inc_by(p2_0);
     let (mut s, mut p1, mut p2) = (s0, p1_0, p2_0);
     let mut step = 0;
     while step < 2 {
-        let op = any_u8();
-        assume(op < 9);
-        let x = any_u64();
-        assume(x < (1 << 60));
+        let op = any_u8_below(9);
+        let x = any_u64() >> 4;
         match op {
             0 => { l1.inc_by(x); p1 += x; }
             1 => { l1.inc(); p1 += 1; }
@@ -99,8 +96,7 @@ pub fn c12_local_histogram_one_op() {
     let h = hist1();
     let l = h.local();
     let (v1, v2, w) = (any_f64(), any_f64(), any_f64());
-    let n = any_u8();
-    assume(n <= 2);
+    let n = any_u8_below(3);
     let mut cnt: u64 = 0;
     let mut sum = 0.0;
     let mut b: u64 = 0;
@@ -108,8 +104,7 @@ pub fn c12_local_histogram_one_op() {
     if n >= 2 { l.observe(v2); cnt += 1; sum += v2; if v2 <= 1.0 { b += 1; } }
     assert!(h.get_sample_count() == 0, "C12 local observations do not reach the shared histogram before a flush");
     assert!(l.get_sample_count() == cnt && f64_same(l.get_sample_sum(), sum));
-    let op = any_u8();
-    assume(op < 5);
+    let op = any_u8_below(5);
     // expected shared state after the operation
     let (mut ec, mut es, mut eb): (u64, f64, u64) = (0, 0.0, 0);
     let mut dropped = false;
